@@ -1030,7 +1030,12 @@ impl Memory {
 
     fn load_line_y86(&mut self, expect_loc: u64, line: &str) -> Result<u64, ()> {
         debug!("processing line from yo file {}", line);
-        if &line[0..2] == "0x" && &line[5..7] == ": " && &line[27..29] == " |" {
+        fn is_hex(s: &str) -> bool { s.bytes().all(|b| b.is_ascii_hexdigit()) }
+        if line.get(0..2) == Some("0x") && line.get(5..7) == Some(": ") && line.get(27..29) == Some(" |") {
+            if !is_hex(&line[2..5]) {
+                debug!("bad address 0x{}", &line[2..5]);
+                return Err(());
+            }
             if let Ok(loc) = u64::from_str_radix(&line[2..5], 16) {
                 if loc != expect_loc {
                     debug!("loc {} from natural loc {}", loc, expect_loc);
@@ -1038,15 +1043,19 @@ impl Memory {
                 let mut loc = loc;
                 let hex_chars = &line[7..27];
                 let mut i = 0;
-                while i < hex_chars.len() && &hex_chars[i..(i+1)] != " " {
-                    if let Ok(byte) = u8::from_str_radix(&hex_chars[i..(i+2)], 16) {
-                        self.data.insert(loc, byte);
-                        debug!("loaded {:x} -> {:x}", byte, loc);
-                        loc += 1;
-                        i += 2;
-                    } else {
-                        debug!("non-hexadecimal data {}", &hex_chars[i..(i+2)]);
-                        return Err(());
+                while i < hex_chars.len() && hex_chars.get(i..(i+1)) != Some(" ") {
+                    match hex_chars.get(i..(i+2)) {
+                        Some(digits) if is_hex(digits) => {
+                            let byte = u8::from_str_radix(digits, 16).unwrap();
+                            self.data.insert(loc, byte);
+                            debug!("loaded {:x} -> {:x}", byte, loc);
+                            loc += 1;
+                            i += 2;
+                        },
+                        _ => {
+                            debug!("non-hexadecimal data in {}", hex_chars);
+                            return Err(());
+                        },
                     }
                 }
                 return Ok(loc);
